@@ -463,7 +463,53 @@ def export_recs(recs, program, points, dparam):
             "monomials": [str(k) for k in recs.recurrence_dict], "is_acyclic": bool(recs.is_acyclic)}
 
 
-JOBS = {"analyze": job_analyze}
+def job_linrec(job):
+    """solve x' = A x + b, x(0) = v with Polar's solvers; several systems and solver modes per job"""
+    from recurrences import Recurrences
+    from recurrences.solver import RecurrenceSolver
+
+    class Stub:
+        symbols = set()
+
+    out = []
+    N = job["N"]
+    for sysd in job["systems"]:
+        k = len(sysd["v"])
+        xs = sympy.symbols(f"x1:{k + 1}")
+        point = sysd.get("point", {})
+        A = [[sympy.sympify(a) for a in row] for row in sysd["A"]]
+        b = [sympy.sympify(c) for c in sysd["b"]]
+        v = [sympy.sympify(c) for c in sysd["v"]]
+        rd = {xs[i]: sum(A[i][j] * xs[j] for j in range(k)) + b[i] for i in range(k)}
+        iv = {xs[i]: v[i] for i in range(k)}
+        stub = Stub()
+        stub.symbols = set().union(*[e.free_symbols for row in A for e in row], *[e.free_symbols for e in b + v]) if k else set()
+        so = {"sid": sysd["sid"], "modes": []}
+        for mode in job["modes"]:
+            mo = {"mode": mode}
+            try:
+                recs = Recurrences(rd, iv, stub)
+                solver = RecurrenceSolver(recs, mode.get("numeric_roots", False), mode.get("numeric_croots", False),
+                                          mode.get("numeric_eps", 1e-10), force_cyclic_solver=mode.get("force_cyclic", False))
+                mo["solver"] = type(solver.solver).__name__
+                mo["is_acyclic"] = bool(recs.is_acyclic)
+                comps = []
+                for i in range(k):
+                    sol = solver.get(xs[i])
+                    comps.append({"closed_form": str(sol)[:600],
+                                  "values": [eval_closed_form(sol, point, n) for n in range(N + 1)]})
+                mo["is_exact"] = bool(solver.is_exact)
+                mo["comps"] = comps
+            except JobTimeout:
+                raise
+            except Exception as ex:
+                mo.update(exc=type(ex).__name__, msg=str(ex)[:200])
+            so["modes"].append(mo)
+        out.append(so)
+    return {"id": job["id"], "systems": out}
+
+
+JOBS = {"analyze": job_analyze, "linrec": job_linrec}
 
 
 def handle(job):
